@@ -1474,7 +1474,12 @@ func (g *gen) addComments(fd *descriptorpb.FileDescriptorProto) {
 	}
 	for mi, m := range fd.MessageType {
 		if g.chance(50) {
-			add([]int32{4, int32(mi)}, " "+m.GetName()+" is a message\n # hidden\n")
+			if g.chance(25) {
+				// two paragraphs, a hidden line, blank lines at both ends (the reader keeps the inner blank line)
+				add([]int32{4, int32(mi)}, "\n "+m.GetName()+" is a message\n\n # hidden\n second paragraph\n\n")
+			} else {
+				add([]int32{4, int32(mi)}, " "+m.GetName()+" is a message\n # hidden\n")
+			}
 		}
 		for fi := range m.Field {
 			if g.chance(30) {
